@@ -10,6 +10,8 @@ static void case_fn (CS &cs, Outcome &o) {
   if (known_excluded ("F17")) base.jmpi = false; /* known finding: edge splitting cannot handle jmpi edges */
   if (known_excluded ("F21")) base.const_branches = false; /* known finding: GVN use-after-free when it folds constant branches */
   if (known_excluded ("F22")) base.single_switch = false;  /* known finding: edge split of a one-target switch */
+  base.ext_chains = true;
+  if (known_excluded ("F62")) base.fp_mem_no_base_index = true; /* known finding: reload register exhaustion */
   Case c;
   if (!make_case (cs, base, c, o)) return;
   label_features (c, o);
